@@ -11,3 +11,15 @@ claim("C19",
   "32-bit pair: all 2^32 values, both round trips, in both tiers (exhaustive). 64-bit pair: exploration by structured values (edges, single bits, bit pairs, carry boundaries), proptest-generated mixtures with shrinking and 2e8 (quick) / 4e9 (thorough) uniform words; both directions.",
   "The 64-bit domain cannot be closed by this technique; a defect confined to a set of measure < 1e-9 that is not structured would be missed.",
   "DESIGN.md 5/C19")
+
+claim("C02",
+  "metamorphic + differential property testing (proptest: insertion plans vs canonical run, 3 vs 3a, power-of-two scaling, union composition through the register hook)",
+  "Exploration: 2e5 (quick) / 5e6 (thorough) generated (variant, hasher, m, weighted set, execution plan) cases; each compares the canonical run with a permuted / batched / multi-entry-point / re-inserting plan, ProbMinHash3 with 3a, a 2^k-scaled copy, membership of every position in the set, and exact position-wise minimum composition for a union. Failures shrink to a minimal weighted set and plan. Right level because order dependence and pruning slips are input-dependent and not enumerable; all weight strata down to the overflow threshold are generated.",
+  "Register values come from the guarded accessor verif_registers; exact floating-point ties between two items are tolerated; weights all below m(ln m+40)/f64::MAX are a listed known finding (pmh-winv-overflow), one decade above it is not asserted.",
+  "DESIGN.md 5/C02")
+
+claim("C04",
+  "metamorphic property testing (two generated presentations of one set must give bit-identical sketches) + targeted collision generator",
+  "Exploration: 1.6e5 (quick) / 3e6 (thorough) generated (sketcher kind among 12, size, SetSketch parameters, set, two presentations with repetitions / permutation / chunking / slice vs item-wise) cases compared bit for bit over all views; stored hashes are checked against the independently recomputed hasher values; a second generator observes per-item values through the public API, finds items with equal value in one bin and presents them in both orders (this is what exposed the f32 tie defect, now fixed).",
+  "SuperMinHash<f32> cases whose final sketch contains an integer-valued register are not asserted (counted); SetSketch event counters are not part of the sketch.",
+  "DESIGN.md 5/C04")
